@@ -57,7 +57,20 @@ PROPS["C17"] = {
     "partial": "",
 }
 
+PROPS["C15"] = {
+    "gen": ["Masks", "PIO"],
+    "trusted_base": ["numpy view semantics: b[by, bx] with slice indexers is a view, so in-place operations on it write into the buffer and nowhere else (index *arrays* would give a copy; toasty passes slices only)",
+                     "PIL / astropy.io.fits / np.save codecs (exercised by read-back)"],
+    "assumptions": COMMON_ASSUME + ["float payloads are abstract tokens: only NaN-ness and identity matter for mask semantics", "png holds RGB/RGBA only; fits all modes but F16x3; npy all (capability table probed on the real code)"],
+    "partial": "codecs",
+}
+
 LEVEL_TEXT = {
+    "C15": {
+        "text": "The numpy statements of fill_into_maskable_buffer / update_into_maskable_buffer / clear / is_completely_masked are translated per mode into per-pixel Lean functions on every run (a small numpy-idiom translator: putmask, isnan, any(axis=2), broadcast_to, maximum, slice assignment). Theorems per mode class: fill defines exactly the rectangle, update never touches the frame nor a pixel whose source is undefined, defined sources replace (RGB/RGBA/float/3xfloat16), integer update is the max, masked-ness uses the same per-pixel rule, write_image stores a tile iff not completely masked after any write history, read defaults. The model is run against the real Image methods on all modes x slice indexers x mask densities, and against PyramidIO write histories and round trips.",
+        "note": "trusted: Lean kernel; the numpy-idiom translator; numpy's slice-view semantics; codecs.",
+        "technique": "Lean 4 proof over per-pixel semantics translated from the numpy source + differential execution",
+    },
     "C17": {
         "text": "The two path builders, the scheme strings and the Builder's Url/FileType are obtained on every run by executing the real PyramidIO/Builder on marker strings. Theorems: for both schemes and every supported format, expanding the recorded template at (level,x,y) is exactly the tile path, for all positions; paths are injective in (level,x,y) (decimal rendering injective, digits vs separators); Url = scheme + FileType, FileType = '.'+extension; a study's TileLevels is log2(p2n/256) (from C08); the reuse branch of FitsTiler.tile (shape re-extracted from the source) returns the description in index_rel.wtml in every call history. Every workflow that writes index_rel.wtml is run and its directory tree compared with the expanded template both ways; tile_fits is run through fresh/repeated/override histories.",
         "note": "trusted: Lean kernel; marker-string extraction; wwt_data_formats; the harness. The history theorem is over a three-branch model of FitsTiler.tile whose branch facts are re-extracted; that the restored Builder equals the written one field-by-field is checked by execution.",
